@@ -131,6 +131,17 @@ def ostep (x : XState) (ev : Event) : Option XState :=
       else some { s := s', nacked := x.nacked ++ o.errTo, asyncErrs := x.asyncErrs + (if o.asyncErr then 1 else 0),
                   cbLog := x.cbLog ++ o.cbNil }
 
+/-- the events by which an I/O failure enters the protocol -/
+def isFault : Event → Bool
+  | .segEnd _ false _ => true
+  | .mergeSegEnd _ false _ => true
+  | .snapEnd false _ => true
+  | .fault _ => true
+  | .persistFail _ => true
+  | .cleanupRemoveSnap _ false => true
+  | .cleanupRemoveSeg _ false => true
+  | _ => false
+
 /-! ## OpenWriter under a Load fault (C14) -/
 
 /-- `loadSnapshots` when `Directory.Load` fails for the snapshot files of the epochs in `skip`: like unloadable files
